@@ -420,6 +420,7 @@ struct ZSTD_CCtx_s {
     unsigned long long pledgedSrcSizePlusOne;  /* this way, 0 (default) == unknown */
     unsigned long long consumedSrcSize;
     unsigned long long producedCSize;
+    unsigned long long blockStartPos;   /* position, within its frame, of the block being compressed */
     XXH64_state_t xxhState;
     ZSTD_customMem customMem;
     ZSTD_threadPool* pool;
